@@ -419,6 +419,40 @@ def check_encode(space, t, bo, ptr, res=None):
     return ("ok" if not diffs else "BAD"), diffs
 
 
+def check_reuse(space, t):
+    """ONE object emitted for every configuration in turn (forwards, then backwards): what it hands out for a
+    configuration must not depend on what it was asked before.  Returns discrepancies."""
+    sp = SPACES[space]
+    name = t[0]
+    _code, _f, count = sp["table"][name]
+    forms = sp["forms"](name)
+    role = dict(r_space=space, r_name=name)
+    try:
+        obj = to_lib(space, t)
+    except Exception:  # noqa: B902 (construction is check_encode's business)
+        return []
+    diffs = []
+    for bo, ptr in list(CONFIGS) + list(reversed(CONFIGS)):
+        if not R.operands_in_range(forms, t[1:], ptr, count):
+            continue
+        want = sp["encode"](t, bo, ptr)
+        try:
+            enc = bytes(obj.encode(bo, ptr))
+        except Exception as e:  # noqa: B902
+            diffs.append(D("reused-object-encode-raises", r_exc=exc_name(e), r_cfg="%s/%d" % (bo, ptr), **role))
+            continue
+        if enc != want:
+            diffs.append(D("reused-object-bytes-differ", r_form="encode", r_cfg="%s/%d" % (bo, ptr), got=enc.hex(), want=want.hex(), **role))
+        if space == "cfa":
+            for d in check_directive(obj, want, bo, ptr, role):
+                d["kind"] = "reused-object-" + d["kind"]
+                d["r_cfg"] = "%s/%d" % (bo, ptr)
+                diffs.append(d)
+        if diffs:
+            break
+    return diffs
+
+
 def check_mutated(space, t, bo, ptr):
     sp = SPACES[space]
     name = t[0]
@@ -1035,6 +1069,12 @@ def _run(task, tier):
 
 
 def _one_enc(res, space, t, bo, ptr, group="enc"):
+    if (bo, ptr) == CONFIGS[0] and (group == "nest" or space == "cfa" or t[0] == "DW_OP_addr"):
+        # once per operand vector: the object-reuse check (objects whose bytes can depend on the configuration)
+        rd = check_reuse(space, t)
+        res.case((group, "reuse", space, jsonable(t)), outcome=group + ":reuse-" + ("ok" if not rd else "BAD"))
+        if rd:
+            res.bad({"t": "reuse", "space": space, "obj": jsonable(t)}, rd)
     oc, diffs = check_encode(space, t, bo, ptr, res)
     res.case((group, space, jsonable(t), bo, ptr), outcome=group + ":" + oc)
     case = {"t": "enc", "space": space, "obj": jsonable(t), "bo": bo, "ptr": ptr}
@@ -1120,6 +1160,8 @@ def replay(case):
         return check_const(case["v"], case["factory"])[1]
     if t == "hist":
         return run_hist(case["cfgs"])
+    if t == "reuse":
+        return check_reuse(case["space"], neutral(case["obj"]))
     raise KeyError(t)
 
 
